@@ -97,12 +97,17 @@ Hypothesis Hwdl : forall ds, wfn_sim (wdl ds) (enc_descriptors_with_length ds) (
 
 (* ---- the length calculators ---- *)
 
+Lemma calcPMTSectionLength_step a es :
+  calcPMTSectionLength_loop1 cdl a es =
+  ((a + 5) mod 65536 + calc_descriptors_length (PMTElementaryStream_ElementaryStreamDescriptors es)) mod 65536.
+Proof. unfold calcPMTSectionLength_loop1. rewrite ?Hcdl. zmod_eq. Qed.
+
 Lemma calcPMTSectionLength_is_model d : calcPMTSectionLength cdl d = calc_pmt_section_length d.
 Proof.
-  unfold calcPMTSectionLength, calc_pmt_section_length. rewrite Hcdl. change (4 mod 65536) with 4.
-  generalize ((4 + calc_descriptors_length (PMTData_ProgramDescriptors d)) mod 65536).
+  unfold calcPMTSectionLength, calc_pmt_section_length. rewrite ?Hcdl. try change (4 mod 65536) with 4.
+  match goal with |- fold_left _ _ ?x = fold_left _ _ ?y => replace x with y by zmod_eq; generalize y end.
   induction (PMTData_ElementaryStreams d) as [|es l IH]; intros a; [reflexivity|].
-  cbn [fold_left]. unfold calcPMTSectionLength_loop1 at 2. rewrite Hcdl. apply IH.
+  cbn [fold_left]. rewrite calcPMTSectionLength_step. apply IH.
 Qed.
 
 Definition res_opt {A} (r : res A) : option A := match r with Ok a => Some a | _ => None end.
